@@ -5,6 +5,7 @@ from ..values import is_variant, payload
 from .. import replay as rp
 from .setops import bits_for, fnr, decode_ab, prog_ab, built
 
+from ..validate import validation_group
 BOUNDS = {'quick': {'alternatives_per_operand': '1..2'}, 'thorough': {'alternatives_per_operand': '1..3'}}
 OUTSIDE = ['more alternatives than the bound', 'parser / Display', '"true => some version lies in both" is not claimed (adjacent prereleases leave empty gaps); the property states the other direction']
 ASSUMPTIONS = ['rank mode is sound given C04', 'std models are transcriptions of the pinned nightly rust-src', 'every BoundSet is built by BoundSet::new']
@@ -12,7 +13,7 @@ ASSUMPTIONS = ['rank mode is sound given C04', 'std models are transcriptions of
 
 def groups(tier):
     K = 2 if tier == 'quick' else 3
-    return [{'name': 'rank-%dx%d' % (ka, kb), 'fn': rank_group, 'args': {'ka': ka, 'kb': kb}} for ka in range(1, K + 1) for kb in range(1, K + 1)]
+    return [{'name': 'rank-%dx%d' % (ka, kb), 'fn': rank_group, 'args': {'ka': ka, 'kb': kb}} for ka in range(1, K + 1) for kb in range(1, K + 1)] + [validation_group(('allows_any',), tier)]
 
 
 def judge_any(case):
